@@ -76,7 +76,7 @@ func init() {
 	const sp = "src-plumbing: parser.Parse hands its own []byte parameter to the scanner unchanged, and the scanner's constructor leaves the cursor and token bounds at 0 (seeds C02-8, C04-9: a byte order mark skipped or trimmed)."
 	twF := []report.Floor{{Rule: "token-writers", What: "stores", Min: 10}}
 	pwF := []report.Floor{{Rule: "position-writers", What: "stores", Min: 8}}
-	spF := []report.Floor{{Rule: "src-plumbing", What: "ctor-calls", Min: 2}}
+	spF := []report.Floor{{Rule: "src-plumbing", What: "ctor-calls", Min: 1}}
 	extendProp("C02", tw+" "+sp, append(twF, spF...), func(c *Ctx) { c.tokenWritersRule(); c.srcPlumbingRule() })
 	extendProp("C04", tw+" "+pw+" "+sp, append(append(twF, pwF...), spF...), func(c *Ctx) { c.tokenWritersRule(); c.positionWritersRule(); c.srcPlumbingRule() })
 	extendProp("C05", pw, pwF, func(c *Ctx) { c.positionWritersRule() })
